@@ -1,1 +1,18 @@
-fn main() { println!("ok"); }
+use rv_harness::srvenv::*;
+use serde_json::json;
+fn main() {
+    let mut env = Env::new(|c| { c.history_size = 3; });
+    let r = env.get("/json", &[]);
+    println!("before: {} {:?}", r.status, String::from_utf8_lossy(&r.body));
+    let a = json!({"origins": [["10.0.0.0/8", 24, 64500]]});
+    let b = json!({"origins": [["10.0.0.0/8", 24, 64501]]});
+    println!("cycle {:?}", env.cycle(&a, 0, false));
+    let r = env.get("/json", &[]);
+    println!("after: {} etag {:?} lm {:?} {}", r.status, r.etag, r.last_modified, String::from_utf8_lossy(&r.body));
+    println!("cycle fail {:?}", env.cycle(&b, 1, false));
+    println!("cycle {:?}", env.cycle(&b, 0, false));
+    let r = env.get("/json-delta?session=1&serial=0", &[]);
+    println!("delta: {} {}", r.status, String::from_utf8_lossy(&r.body));
+    let r = env.get("/json-delta/notify", &[]);
+    println!("notify: {} {}", r.status, String::from_utf8_lossy(&r.body));
+}
